@@ -277,7 +277,8 @@ class GridSearcher(StochasticSearcher):
                 hp_values.append(values)
             elif isinstance(hp_range, FiniteRange):
                 hp_keys.append(hp)
-                hp_values.append(hp_range.values)
+                # A finite range can list a value several times (``cast_int``)
+                hp_values.append(list(OrderedDict.fromkeys(hp_range.values)))
             elif not isinstance(hp_range, Domain):
                 hp_keys.append(hp)
                 hp_values.append([hp_range])
